@@ -41,6 +41,7 @@
 #include "table_cache.h"
 #include "version_edit.h"
 #include "version_set.h"
+#include "util/verif.h"
 
 /*
  * Helpers
@@ -1281,6 +1282,37 @@ ldb_versions_write_snapshot(ldb_versions_t *vset, ldb_writer_t *log) {
   return rc;
 }
 
+#ifdef LCDB_VERIF
+static void
+verif_layout(const char *name, const ldb_versions_t *vset,
+             const ldb_version_t *v, int reused) {
+  int level, n = 0;
+  size_t i;
+
+  LCDB_BEGIN(name);
+  LCDB_ADD(("\"ver\":%d,\"log\":%lu,\"prevlog\":%lu,\"nextfile\":%lu,"
+            "\"lastseq\":%lu,\"manifest\":%lu,\"reused\":%d,\"files\":[",
+            LCDB_NEWID(v),
+            (unsigned long)vset->log_number,
+            (unsigned long)vset->prev_log_number,
+            (unsigned long)vset->next_file_number,
+            (unsigned long)vset->last_sequence,
+            (unsigned long)vset->manifest_file_number, reused));
+
+  for (level = 0; level < LDB_NUM_LEVELS; level++) {
+    for (i = 0; i < v->files[level].length; i++) {
+      const ldb_filemeta_t *f = v->files[level].items[i];
+
+      LCDB_ADD(("%s[%d,%lu,%lu]", n++ ? "," : "", level,
+                (unsigned long)f->number, (unsigned long)f->file_size));
+    }
+  }
+
+  LCDB_ADD(("]"));
+  LCDB_END();
+}
+#endif
+
 int
 ldb_versions_apply(ldb_versions_t *vset, ldb_edit_t *edit, ldb_mutex_t *mu) {
   char fname[LDB_PATH_MAX];
@@ -1374,7 +1406,13 @@ ldb_versions_apply(ldb_versions_t *vset, ldb_edit_t *edit, ldb_mutex_t *mu) {
 
     vset->log_number = edit->log_number;
     vset->prev_log_number = edit->prev_log_number;
+
+#ifdef LCDB_VERIF
+    verif_layout("VersionInstall", vset, v, fname[0] != 0);
+#endif
   } else {
+    LCDB_EV(("ApplyFailed", "\"rc\":%d,\"newmanifest\":%d", rc, fname[0] != 0));
+
     ldb_version_destroy(v);
 
     if (fname[0]) {
@@ -1614,6 +1652,10 @@ ldb_versions_recover(ldb_versions_t *vset, int *save_manifest) {
     } else {
       *save_manifest = 1;
     }
+
+#ifdef LCDB_VERIF
+    verif_layout("RecoverManifest", vset, v, !*save_manifest);
+#endif
   } else {
     ldb_log(vset->options->info_log,
             "Error recovering version set with %d records: %s",
